@@ -52,7 +52,7 @@ func main() {
 		weights[i] = fm.weight
 	}
 	corpus := corpusCases()
-	n := f.N(2600, 120000)
+	n := f.N(6000, 150000)
 	for k := 0; k < n; k++ {
 		if !f.Want(k) {
 			continue
